@@ -539,3 +539,18 @@ Definition method_sig (T : dtables) (cls m : string) : option (list param) :=
   | Some (AProperty _ _) => Some []
   | _ => None
   end.
+
+(* operand order of the binary operator methods: __op__ passes (self, other), __rop__ passes (other, self) *)
+Definition binary_stems : list string :=
+  ["add"; "sub"; "mul"; "matmul"; "truediv"; "floordiv"; "mod"; "pow"; "lshift"; "rshift"; "and"; "xor"; "or"].
+
+Definition body_order_ok (reflected : bool) (a : option attr) : bool :=
+  match a with
+  | Some (AMethod _ _ (BMixinBinary _ r)) => Bool.eqb r reflected
+  | Some (AMethod _ _ (BNamespaceFn _ sw _)) => Bool.eqb sw reflected
+  | _ => false
+  end.
+
+Definition operand_order_ok (T : dtables) (cls : string) : bool :=
+  forallb (fun st => body_order_ok false (attr_lookup T cls (dunder st SideL))
+                     && body_order_ok true (attr_lookup T cls (dunder st SideR))) binary_stems.
